@@ -21,13 +21,13 @@ def sk(t):
     return re.sub(r'#(?:i\d+:)?\d+\.\d+', '', show(t))
 
 
-def _calls(facts, name, havoc=True):
+def _calls(facts, name, havoc=True, inline=None):
     b = facts.bodies.get(CR + name)
     if b is None:
         return None, []
     out = []
     seen = set()
-    for p in SymEx(b, havoc_loops=havoc, max_paths=40000).run():
+    for p in SymEx(b, havoc_loops=havoc, max_paths=40000, inline=inline).run():
         for e in p.calls():
             key = (e.name, tuple(sk(a) for a in e.args))
             if key not in seen:
@@ -38,11 +38,20 @@ def _calls(facts, name, havoc=True):
 
 def run(facts, rep):
     problems = {}
+    unknowns = []
 
-    def need(cond, rule, what):
+    def need(cond, rule, what, known=True):
+        """known: the observed roles are all within the role vocabulary of that rule, so a mismatch is a statement about
+        the code; otherwise the reader left its fragment and the outcome is INDETERMINATE"""
         problems.setdefault(rule, [])
         if not cond:
-            problems[rule].append(what)
+            if known:
+                problems[rule].append(what)
+            else:
+                unknowns.append('%s: %s' % (rule, what))
+
+    def within(vals, vocab):
+        return all(v in vocab for v in vals)
 
     # deg_trip
     dt = facts.bodies.get(CR + 'deg_trip')
@@ -51,7 +60,8 @@ def run(facts, rep):
         return
     rep.saw(dt)
     rets = [sk(p.ret) for p in SymEx(dt).run() if p.end == 'return']
-    need(rets == ['(sub(arg2, *arg1.d_deg), arg2, add(arg2, *arg1.d_deg))'], 'deg_trip', 'deg_trip returns %s, expected (i - d, i, i + d)' % rets)
+    need(rets == ['(sub(arg2, *arg1.d_deg), arg2, add(arg2, *arg1.d_deg))'], 'deg_trip', 'deg_trip returns %s, expected (i - d, i, i + d)' % rets,
+         known=len(rets) == 1 and re.match(r'\(((sub|add)\(arg2, \*arg1\.d_deg\)|arg2)(, ((sub|add)\(arg2, \*arg1\.d_deg\)|arg2)){2}\)$', rets[0]) is not None)
 
     # update_mats(self, i, p, q, r, s)
     b, cs = _calls(facts, 'update_mats')
@@ -60,7 +70,7 @@ def run(facts, rep):
         return
     rep.saw(b)
     names = [b.local_name(k) for k in range(1, b.arg_count + 1)]
-    need(names == ['self', 'i', 'p', 'q', 'r', 's'], 'update_mats', 'parameters are %s' % names)
+    need(names == ['self', 'i', 'p', 'q', 'r', 's'], 'update_mats', 'parameters are %s' % names, known=False)
     from symex import apply_closure
     ins = {}
     unknown_ins = []
@@ -111,7 +121,7 @@ def run(facts, rep):
         return
     rep.saw(b)
     names = [b.local_name(k) for k in range(1, b.arg_count + 1)]
-    need(names == ['self', 'i', 'p', 'q', 't_src', 't_tgt'], 'update_trans', 'parameters are %s' % names)
+    need(names == ['self', 'i', 'p', 'q', 't_src', 't_tgt'], 'update_trans', 'parameters are %s' % names, known=False)
     tr = {}
     for e, p in cs:
         last = e.name.split('::')[-1]
@@ -119,8 +129,10 @@ def run(facts, rep):
         m = re.search(r'trans_mut\(&mut \*arg1, deg_trip\(arg1, arg2\)\.(\d)\)', a[0]) if a else None
         if last in ('append_perm', 'merge') and m:
             tr.setdefault(m.group(1), []).append((last, a[1]))
-    need(tr.get('1') == [('append_perm', 'view(arg4)'), ('merge', 'arg5')], 'update_trans', 'transform on C_i updated by %s; expected append_perm(q), merge(t_src)' % tr.get('1'))
-    need(tr.get('2') == [('append_perm', 'view(arg3)'), ('merge', 'arg6')], 'update_trans', 'transform on C_{i+d} updated by %s; expected append_perm(p), merge(t_tgt)' % tr.get('2'))
+    tv = {'view(arg3)', 'view(arg4)', 'arg5', 'arg6'}
+    ktr = bool(tr.get('1')) and bool(tr.get('2')) and within([x[1] for k in ('1', '2') for x in tr[k]], tv) and set(tr) <= {'0', '1', '2'}
+    need(tr.get('1') == [('append_perm', 'view(arg4)'), ('merge', 'arg5')], 'update_trans', 'transform on C_i updated by %s; expected append_perm(q), merge(t_src)' % tr.get('1'), known=ktr)
+    need(tr.get('2') == [('append_perm', 'view(arg3)'), ('merge', 'arg6')], 'update_trans', 'transform on C_{i+d} updated by %s; expected append_perm(p), merge(t_tgt)' % tr.get('2'), known=ktr)
 
     # update_vecs(self, i, a, p, q, r, t)
     b, cs = _calls(facts, 'update_vecs')
@@ -129,7 +141,7 @@ def run(facts, rep):
         return
     rep.saw(b)
     names = [b.local_name(k) for k in range(1, b.arg_count + 1)]
-    need(names == ['self', 'i', 'a', 'p', 'q', 'r', 't'], 'update_vecs', 'parameters are %s' % names)
+    need(names == ['self', 'i', 'a', 'p', 'q', 'r', 't'], 'update_vecs', 'parameters are %s' % names, known=False)
     vv = {}
     for e, p in cs:
         last = e.name.split('::')[-1]
@@ -144,23 +156,32 @@ def run(facts, rep):
             vv.setdefault('deg', []).append(a[1])
         elif last == 'sub' and 'ops::Sub' in e.name and 'mul(' in a[1]:
             vv['w'] = (a[0], a[1])
-    need(vv.get('permute') == 'view(arg4)' and vv.get('split') == 'arg6', 'update_vecs', 'vectors in C_{i+d} permuted by %s and split at %s; expected p, r' % (vv.get('permute'), vv.get('split')))
-    need(vv.get('solve', ('', ''))[0] == 'arg7' and vv.get('solve', ('', ''))[1].endswith('[0]'), 'update_vecs', 'triangular solve uses %s; expected (t, block a)' % (vv.get('solve'),))
+    need(vv.get('permute') == 'view(arg4)' and vv.get('split') == 'arg6', 'update_vecs', 'vectors in C_{i+d} permuted by %s and split at %s; expected p, r' % (vv.get('permute'), vv.get('split')),
+         known=vv.get('permute') in ('view(arg4)', 'view(arg5)') and re.match(r'arg\d$', vv.get('split') or '') is not None)
+    need(vv.get('solve', ('', ''))[0] == 'arg7' and vv.get('solve', ('', ''))[1].endswith('[0]'), 'update_vecs', 'triangular solve uses %s; expected (t, block a)' % (vv.get('solve'),),
+         known='solve' in vv and re.match(r'arg\d$', vv['solve'][0]) is not None and re.search(r'divide4\(arg3, \(arg\d, arg\d\)\)\[\d\]$', vv['solve'][1]) is not None)
     w = vv.get('w')
+    kw = bool(w) and re.search(r'mul\(&\*?divide4\(arg3, \(arg\d, arg\d\)\)\[\d\], solve_triangular_vec', w[1] or '') is not None and re.search(r'\.\d$', w[0]) is not None
     need(bool(w) and w[0].endswith('.1') and re.search(r'mul\(&\*?divide4\(arg3, \(arg6, arg6\)\)\[2\], solve_triangular_vec', w[1] or '') is not None, 'update_vecs',
-         'target-side vectors become %s; expected y - c * (a^-1 x)' % (w,))
-    need(sorted(vv.get('deg', [])) == ['&deg_trip(arg1, arg2).1', '&deg_trip(arg1, arg2).2'], 'update_vecs', 'vectors looked up at %s' % vv.get('deg'))
+         'target-side vectors become %s; expected y - c * (a^-1 x)' % (w,), known=kw)
+    need(sorted(vv.get('deg', [])) == ['&deg_trip(arg1, arg2).1', '&deg_trip(arg1, arg2).2'], 'update_vecs', 'vectors looked up at %s' % vv.get('deg'),
+         known=bool(vv.get('deg')) and all(re.match(r'&deg_trip\(arg1, arg2\)\.\d$', x) for x in vv['deg']))
     qs = False
+    ps_ = False
     for k, cb in facts.bodies.items():
         if k.startswith(CR + 'update_vecs::{closure'):
             for p in SymEx(cb).run():
                 for e in p.calls():
                     if e.name.split('::')[-1] == 'at' and re.search(r'\^(_ref__)?q\b', sk(e.args[0])):
                         qs = True
-    need(qs, 'update_vecs', 'source-side vectors are not extracted with q')
+                    if e.name.split('::')[-1] == 'at' and re.search(r'\^(_ref__)?p\b', sk(e.args[0])):
+                        ps_ = True
+    need(qs, 'update_vecs', 'source-side vectors are extracted with p instead of q' if ps_ else 'source-side vectors are not extracted with q', known=ps_)
 
     # reduce_at_spec
-    b, cs = _calls(facts, 'reduce_at_spec', havoc=False)
+    from symex import private_helper
+    inl = private_helper(exclude=('update_mats', 'update_trans', 'update_vecs', 'deg_trip', 'matrix', 'pivots'))
+    b, cs = _calls(facts, 'reduce_at_spec', havoc=False, inline=inl)
     if b is None:
         rep.indet('E18: reduce_at_spec not found')
         return
@@ -170,14 +191,17 @@ def run(facts, rep):
     for e, p in cs:
         last = e.name.split('::')[-1]
         a = [sk(x) for x in e.args]
+        roles = {'arg2', P, Q, R_, 'view(%s)' % P, 'view(%s)' % Q}
         if last == 'permute' and e.name.endswith('SpMat::<R>::permute'):
-            need(a[1] == 'view(%s)' % P and a[2] == 'view(%s)' % Q, 'reduce_at_spec', 'd_i permuted with (%s, %s); expected (p, q)' % (a[1], a[2]))
+            need(a[1] == 'view(%s)' % P and a[2] == 'view(%s)' % Q, 'reduce_at_spec', 'd_i permuted with (%s, %s); expected (p, q)' % (a[1], a[2]), known=within(a[1:3], roles))
         elif last == 'update_mats':
-            need(a[1:5] == ['arg2', P, Q, R_] and a[5].startswith('disassemble(') and a[5].endswith('.0'), 'reduce_at_spec', 'update_mats called with %s' % a[1:])
+            need(a[1:5] == ['arg2', P, Q, R_] and a[5].startswith('disassemble(') and a[5].endswith('.0'), 'reduce_at_spec', 'update_mats called with %s' % a[1:],
+                 known=within(a[1:5], roles) and re.match(r'disassemble\(.*\)\.\d$', a[5]) is not None)
         elif last == 'update_trans':
-            need(a[1:4] == ['arg2', P, Q] and a[4].endswith('.1)') and a[5].endswith('.2)'), 'reduce_at_spec', 'update_trans called with %s' % [x[-30:] for x in a[1:]])
+            need(a[1:4] == ['arg2', P, Q] and a[4].endswith('.1)') and a[5].endswith('.2)'), 'reduce_at_spec', 'update_trans called with %s' % [x[-30:] for x in a[1:]],
+                 known=within(a[1:4], roles) and all(re.search(r'disassemble\(.*\)\.\d\)$', x) for x in a[4:6]))
         elif last == 'update_vecs':
-            need(a[1] == 'arg2' and a[3:6] == [P, Q, R_], 'reduce_at_spec', 'update_vecs called with %s' % [x[-40:] for x in a[1:]])
+            need(a[1] == 'arg2' and a[3:6] == [P, Q, R_], 'reduce_at_spec', 'update_vecs called with %s' % [x[-40:] for x in a[1:]], known=within([a[1]] + a[3:6], roles))
         elif last == 'from_partial_triangular':
             pt = None
             for ev in p.branches():
@@ -189,7 +213,7 @@ def run(facts, rep):
     for e, p in cs:
         pass
     b_ras = facts.bodies.get(CR + 'reduce_at_spec')
-    for p in SymEx(b_ras, havoc_loops=False, max_paths=40000).run():
+    for p in SymEx(b_ras, havoc_loops=False, max_paths=40000, inline=inl).run():
         if p.end != 'return':
             continue
         names = [e.name.split('::')[-1] for e in p.calls()]
@@ -198,13 +222,18 @@ def run(facts, rep):
             combos.add((m_, t_, v_))
     need(combos == {(True, True, True), (True, False, True)}, 'reduce_at_spec',
          'the (update_mats, update_trans, update_vecs) combinations taken along the paths are %s; expected matrices and tracked vectors on every reducing path, transforms only when they are recorded' % sorted(combos))
-    need(tri == {('Rows', 'TriangularType::Upper{}'), ('Cols', 'TriangularType::Lower{}')}, 'reduce_at_spec', 'pivot type / triangular type pairing is %s' % sorted(tri, key=str))
+    need(tri == {('Rows', 'TriangularType::Upper{}'), ('Cols', 'TriangularType::Lower{}')}, 'reduce_at_spec', 'pivot type / triangular type pairing is %s' % sorted(tri, key=str),
+         known=bool(tri) and all(x in ('Rows', 'Cols') and re.match(r'TriangularType::(Upper|Lower)\{\}$', y) for x, y in tri))
     # Schur::disassemble order
     ds = facts.bodies.get('yui_matrix::sparse::schur::Schur::<R>::disassemble')
     if ds is not None:
         rep.saw(ds)
         rets = [sk(p.ret) for p in SymEx(ds).run() if p.end == 'return']
-        need(rets == ['(arg1.s, arg1.t_src, arg1.t_tgt)'], 'disassemble', 'Schur::disassemble returns %s' % rets)
+        need(rets == ['(arg1.s, arg1.t_src, arg1.t_tgt)'], 'disassemble', 'Schur::disassemble returns %s' % rets,
+             known=len(rets) == 1 and re.match(r'\(arg1\.(s|t_src|t_tgt), arg1\.(s|t_src|t_tgt), arg1\.(s|t_src|t_tgt)\)$', rets[0]) is not None)
+    if unknowns and not any(problems.values()):
+        rep.indet('E18: reduction step outside the recognised fragment: %s' % '; '.join(unknowns)[:400])
+        return
     for rule, probs in sorted(problems.items()):
         inst = 'ChainReducer::%s|source side uses q, target side uses p, same r' % rule
         if probs:
